@@ -21,6 +21,11 @@ import (
 //   neither read (no value comes back, the option table is not consulted) nor written (the
 //   options nsqadmin runs with are the same object with the same values);
 //   inside the CIDR, or none configured  =>  the option is read / written.
+// "The client" is the peer of the connection (RemoteAddr), whatever the request says about itself:
+// the request optionally carries client-supplied forwarding headers (X-Forwarded-For alone / as a
+// list, X-Real-Ip, Forwarded, or all the well-known ones at once) naming ANY IPv4 address. A peer
+// outside the CIDR that names an address inside stays refused; a peer inside that names an
+// address outside stays served.
 //
 // Under gosmt the three standard-library text parsers doConfig calls (net.ParseCIDR,
 // net.SplitHostPort, net.ParseIP) are replaced by their contracts over the harness's bytes (the
@@ -44,14 +49,27 @@ func verifC17Config() {
 	if cidr {
 		family = verifrt.Choice("clientKind", 4)
 	}
+	// client-supplied forwarding headers: 0 none, then see vForwardingHeaders
+	claimed := verifrt.BytesN("claimed", 4)
+	fwd := 0
+	if cidr {
+		if family == 0 {
+			fwd = verifrt.Choice("forwardingHeaders", 6)
+		} else {
+			fwd = verifrt.Choice("forwardingHeaders", 2) * 5
+		}
+	}
 	mask := uint32(0xffffffff) << uint(32-prefix)
 	net32 := uint32(netw[0])<<24 | uint32(netw[1])<<16 | uint32(netw[2])<<8 | uint32(netw[3])
 	cl32 := uint32(cl[0])<<24 | uint32(cl[1])<<16 | uint32(cl[2])<<8 | uint32(cl[3])
 	// reference: membership of an address in a CIDR block
 	inside := (net32^cl32)&mask == 0
 	allowed := !cidr || (family == 0 && inside)
+	hd32 := uint32(claimed[0])<<24 | uint32(claimed[1])<<16 | uint32(claimed[2])<<8 | uint32(claimed[3])
+	claimedInside := (net32^hd32)&mask == 0
 
 	remote := fmt.Sprintf("%d.%d.%d.%d:5555", cl[0], cl[1], cl[2], cl[3])
+	claimedText := fmt.Sprintf("%d.%d.%d.%d", claimed[0], claimed[1], claimed[2], claimed[3])
 	switch family {
 	case 1:
 		remote = fmt.Sprintf("[2001:db8::%x]:5555", cl[3])
@@ -73,13 +91,27 @@ func verifC17Config() {
 			ip := net.IP{netw[0], netw[1], netw[2], netw[3]}
 			return ip, &net.IPNet{IP: net.IP{netw[0] & m[0], netw[1] & m[1], netw[2] & m[2], netw[3] & m[3]}, Mask: m}, nil
 		})
+		// the texts stand for themselves: "peer:5555" is the peer's host:port, "claimed" the
+		// address the forwarding headers name
+		remote, claimedText = "peer:5555", "claimed"
+		if family == 2 {
+			remote = "peer"
+		}
 		verifrt.Stub("net.SplitHostPort", func(hostport string) (string, string, error) {
-			if family == 2 {
-				return "", "", errors.New("missing port in address")
+			if hostport == "peer:5555" {
+				return "peer", "5555", nil
 			}
-			return "host", "5555", nil
+			return "", "", errors.New("missing port in address")
 		})
 		verifrt.Stub("net.ParseIP", func(s string) net.IP {
+			switch {
+			case s == "claimed":
+				return net.IP{0, 0, 0, 0, 0, 0, 0, 0, 0, 0, 0xff, 0xff, claimed[0], claimed[1], claimed[2], claimed[3]}
+			case s == "192.0.2.1":
+				return net.IP{0, 0, 0, 0, 0, 0, 0, 0, 0, 0, 0xff, 0xff, 192, 0, 2, 1}
+			case s != "peer":
+				return nil
+			}
 			switch family {
 			case 0:
 				return net.IP{0, 0, 0, 0, 0, 0, 0, 0, 0, 0, 0xff, 0xff, cl[0], cl[1], cl[2], cl[3]}
@@ -116,7 +148,7 @@ func verifC17Config() {
 		}
 	}
 	oldLookupds := o.NSQLookupdHTTPAddresses
-	req := vRequest(method, "/config/"+opt, http.Header{}, body, remote)
+	req := vRequest(method, "/config/"+opt, vForwardingHeaders(fwd, claimedText), body, remote)
 	w := &vWriter{}
 	v, err := s.doConfig(w, req, httprouter.Params{{Key: "opt", Value: opt}})
 	code := vErrCode(err)
@@ -134,6 +166,10 @@ func verifC17Config() {
 		verifrt.Reach("outside-cidr-get", !put && family == 0)
 		verifrt.Reach("outside-cidr-put", put && family == 0)
 		verifrt.Reach("outside-one-bit-off", family == 0 && prefix == 31 && (net32^cl32) == 2)
+		verifrt.Reach("outside-peer-naming-an-inside-address-get", !put && family == 0 && fwd > 0 && claimedInside)
+		verifrt.Reach("outside-peer-naming-an-inside-address-put", put && family == 0 && fwd > 0 && claimedInside)
+		verifrt.Reach("outside-peer-x-forwarded-for-inside", family == 0 && fwd == 1 && claimedInside)
+		verifrt.Reach("ipv6-peer-naming-an-inside-address", family == 1 && fwd > 0 && claimedInside)
 		verifrt.Reach("ipv6-client", family == 1)
 		verifrt.Reach("bad-remote-addr", family >= 2)
 		return
@@ -152,8 +188,36 @@ func verifC17Config() {
 		lv, ok := v.(lg.LogLevel)
 		verifrt.Assert(ok && lv == now.LogLevel, "config-returns-current-value")
 	}
+	verifrt.Reach("inside-peer-naming-an-outside-address-get", !put && cidr && fwd > 0 && !claimedInside)
+	verifrt.Reach("inside-peer-naming-an-outside-address-put", put && cidr && fwd > 0 && !claimedInside)
+	verifrt.Reach("inside-peer-x-forwarded-for-outside", cidr && fwd == 1 && !claimedInside)
 	verifrt.Reach("inside-cidr-put", put && cidr && prefix > 8 && prefix < 32)
 	verifrt.Reach("inside-cidr-get", !put && cidr)
 	verifrt.Reach("no-cidr", !cidr)
 	verifrt.Reach("prefix-0-admits-all", cidr && prefix == 0 && net32 != cl32)
+}
+
+// vForwardingHeaders: the headers of a /config request whose sender says "I am <addr>" in one of
+// the ways reverse proxies (and therefore any client) can:
+//   0 nothing, 1 X-Forwarded-For: addr, 2 X-Forwarded-For: addr, 192.0.2.1 (a proxy chain),
+//   3 X-Real-Ip: addr, 4 Forwarded: for=addr, 5 every well-known header at once
+func vForwardingHeaders(kind int, addr string) http.Header {
+	h := http.Header{}
+	switch kind {
+	case 1:
+		h.Set("X-Forwarded-For", addr)
+	case 2:
+		h.Set("X-Forwarded-For", addr+", 192.0.2.1")
+	case 3:
+		h.Set("X-Real-Ip", addr)
+	case 4:
+		h.Set("Forwarded", "for="+addr)
+	case 5:
+		for _, k := range []string{"X-Forwarded-For", "X-Real-Ip", "X-Client-Ip", "X-Cluster-Client-Ip", "True-Client-Ip", "Cf-Connecting-Ip", "X-Forwarded", "Forwarded-For"} {
+			h.Set(k, addr)
+		}
+		h.Set("Forwarded", "for="+addr+";proto=http")
+		h.Set("X-Forwarded-Host", addr)
+	}
+	return h
 }
